@@ -89,9 +89,21 @@ func (x *Exec) havocResult(st *State, name string, res *types.Tuple) Value {
 	case 0:
 		return nil
 	case 1:
-		return x.symbolicValue(st, name, res.At(0).Type())
+		v := x.symbolicValue(st, name, res.At(0).Type())
+		if t, ok := v.(*Term); ok {
+			x.assume(x.w.objectFacts(t, res.At(0).Type(), st.alloc))
+		}
+		return v
 	}
-	return x.symbolicValue(st, name, res)
+	v := x.symbolicValue(st, name, res)
+	if tup, ok := v.(Tuple); ok {
+		for i := 0; i < res.Len() && i < len(tup); i++ {
+			if t, ok := tup[i].(*Term); ok {
+				x.assume(x.w.objectFacts(t, res.At(i).Type(), st.alloc))
+			}
+		}
+	}
+	return v
 }
 
 func packResults(res []Value, n int) Value {
